@@ -132,6 +132,7 @@ func testdataDocs() []corpusDoc {
 func richSubtitles(r *fw.Rand) *astisub.Subtitles {
 	s := astisub.NewSubtitles()
 	ns, nr := r.Intn(7), r.Intn(7)
+	caseIDs := r.P(1, 4)
 	var styles []*astisub.Style
 	for k := 0; k < ns; k++ {
 		sa := &astisub.StyleAttributes{}
@@ -145,6 +146,9 @@ func richSubtitles(r *fw.Rand) *astisub.Subtitles {
 			sa.WebVTTStyles = []string{fmt.Sprintf("::cue(.s%d) {", k), "color: red;", "}"}
 		}
 		st := &astisub.Style{ID: fmt.Sprintf("style%d", k), InlineStyle: sa}
+		if k%2 == 1 && caseIDs {
+			st.ID = fmt.Sprintf("Style%d", k-1) // differs from its neighbour only by letter case
+		}
 		if k > 0 && r.Bool() {
 			st.Style = styles[r.Intn(k)]
 		}
@@ -228,6 +232,9 @@ func richSubtitles(r *fw.Rand) *astisub.Subtitles {
 			it.Lines = append(it.Lines, line)
 		}
 		s.Items = append(s.Items, it)
+	}
+	if r.P(1, 4) {
+		fw.Shuffle(r, s.Items) // a list that is not ordered by start is a legal list
 	}
 	return s
 }
